@@ -110,7 +110,7 @@ func (p *c09) nest(r *lib.Rand, rootPath string, depth int, leaf map[string]any,
 		s := steps[i]
 		switch s.kind {
 		case "properties":
-			schema = map[string]any{"type": "object", "properties": map[string]any{s.name: schema, "zz9": map[string]any{"type": "string"}}}
+			schema = map[string]any{"type": "object", "properties": map[string]any{s.name: schema, fmt.Sprintf("zz9_%d", i): map[string]any{"type": "string"}}}
 		case "items":
 			schema = map[string]any{"type": "array", "items": schema}
 		case "tuple":
@@ -120,7 +120,8 @@ func (p *c09) nest(r *lib.Rand, rootPath string, depth int, leaf map[string]any,
 		case "additionalProperties":
 			schema = map[string]any{"type": "object", "additionalProperties": schema}
 		case "allOf":
-			all := []any{map[string]any{"type": "object", "properties": map[string]any{"zz8": map[string]any{"type": "string"}}}, map[string]any{"type": "object", "properties": map[string]any{"zz7": map[string]any{"type": "string"}}}}
+			// filler members get names unique to their depth: inherited property names must not repeat
+			all := []any{map[string]any{"type": "object", "properties": map[string]any{fmt.Sprintf("zz8_%d", i): map[string]any{"type": "string"}}}, map[string]any{"type": "object", "properties": map[string]any{fmt.Sprintf("zz7_%d", i): map[string]any{"type": "string"}}}}
 			all[s.idx] = schema
 			schema = map[string]any{"allOf": all}
 		}
